@@ -838,6 +838,10 @@ class WorkerPool:
                         self._worker_comms.wait_until_progress_bar_is_complete()
 
                 except KeyboardInterrupt:
+                    # A KeyboardInterrupt raised by a user function also ends up here, after it has been handled (the
+                    # workers are gone by then). In that case there's nothing left to do but to pass it on
+                    if not self._workers and self._worker_comms.exception_thrown():
+                        raise
                     self._handle_exception()
 
         finally:
